@@ -364,6 +364,53 @@ ADDED = {
 }
 
 
+# third seeding round: further functions and structural obligations
+ADDED3 = {
+    "C01": "Round 3: DelayManager._process_delay_callback is executed in line where it is called directly (run_now never "
+           "drains); SwitchController._add_timed_switch_handler (AT3: nothing synchronous) re-checked here.",
+    "C02": "Round 3: ModeController._ball_ending / _mode_stopped_callback (C11) re-checked; QueueRelayPlayer.play / "
+           "_callback / clear_context (one wait and one handler per relay; bounded: 3 relays).",
+    "C03": "Round 3: _add_timed_switch_handler (one wake-up at the earliest deadline, bounded 0..3 pending), "
+           "remove_switch_handler_by_key(s) (exactly the key's switch, callback, state, ms), Switch._post_events / "
+           "_post_events_with_recycle / _recycle_passed (events follow the logical state; ignore window), "
+           "BcpInterface._bcp_receive_switch (flip of the logical state).",
+    "C04": "Round 3: BallCountHandler._run (loop invariants under a rely: arrivals = rise of the count, lock released per "
+           "pass, no silent lowering), BallDevice.lost_idle_ball / lost_incoming_ball / lost_ejected_ball / "
+           "handle_mechanical_eject_during_idle (each lost ball added to the ball_missing_target once), BallSearch.give_up "
+           "(writes off exactly playfield.balls), balls in transit reserve space (C05's incoming set).",
+    "C05": "Round 3: IncomingBall (one outcome, one confirmation, one removal) and IncomingBallsHandler (arrival matched to "
+           "the first ball that can arrive; bounded: 3 balls in transit).",
+    "C06": "Round 3: Game._stop_game_modes / _game_mode_stopped (bounded: 3 modes), BallController._ball_drained_handler "
+           "(relay carries the unclaimed balls), Tilt.slam_tilt (always recorded), C11 _ball_ending and C02 Mode.stop "
+           "re-checked.",
+    "C07": "Round 3: C06's game stop set and C02's queue relay set re-checked here.",
+    "C08": "Round 3: the actuation-site enumeration covers the platform packages; structural obligation: no module touches "
+           "another device's switch-off timers ('timed_disable', 'enable_limit_reached').",
+    "C09": "Round 3: FAST LED channel / LED dirty flag (FL1-FL4), LightController._update_brightness (subscription renewed "
+           "on every notification), DriverLight.set_brightness (C08) re-checked, _get_color_and_target_time / "
+           "_get_color_and_fade (bounded stacks).",
+    "C10": "Round 3: FASTDriver.clear_autofire (FD1), C03's key-removal set and C06's _run_ball re-checked.",
+    "C11": "Round 3: Bonus.mode_start (subtotal starts from zero), ScoreQueue._handle_score_queue (empty flag only while "
+           "nothing is queued or rung up; bounded: scores below 100), mixin enable / disable announce every change.",
+    "C12": "Round 3: _validate_type_or_token (the returned closure is exercised by an environment step: all arguments are "
+           "forwarded), Show.get_show_steps_with_token (nothing cached when validation fails).",
+    "C13": "Round 3: Mode._control_event_handler (C07 L5) re-checked.",
+    "C14": "Round 3: read_gen2_inp_resp_initial (CRC gate at start-up), structural obligation on write_to_port call sites.",
+    "C15": "Round 3: DataManager._setup_file (boot never writes), SettingsController.set_setting_value (always marked "
+           "persistent), _load_initial_machine_vars (reloaded values kept, also falsy ones; bounded). Known finding "
+           "F-C15-a (expiry lost across a reload).",
+    "C16": "Round 3: Driver._calculate_pulse_ms_placeholder / _calculate_timed_enable_ms_placeholder (re-armed by "
+           "themselves), SettingsController.get_setting_value (read through on every access, falsy values included), mixin "
+           "enable / disable announcements (C11) re-checked.",
+    "C17": "Round 3: ShowController.replace_or_advance_show (a synced replacement stops its predecessor at the sync point).",
+    "C18": "Round 3: Mode._control_event_handler (C07 L5) re-checked.",
+    "C19": "Round 3: _process_command (payload of any length handed on; defect f6d7550 repaired), "
+           "BcpTransportManager._receive_loop (each command handled to completion before the next is read).",
+    "C20": "Round 3: Credits._game_ended (tier restart re-armed at every game end), SettingsController.get_setting_value "
+           "(C16) re-checked.",
+}
+
+
 def main():
     props = [json.loads(l) for l in open("properties.jsonl")]
     checks = []
@@ -375,6 +422,8 @@ def main():
                 c["text"] = c["text"] + " " + ADDED[pid][0]
                 if ADDED[pid][1]:
                     c["note"] = c["note"] + " " + ADDED[pid][1]
+            if pid in ADDED3:
+                c["text"] = c["text"] + " " + ADDED3[pid]
             checks.append({
                 "property_id": pid,
                 "quick_cmd": "./check %s --tier quick" % pid,
